@@ -2,6 +2,8 @@ CONSTANT M = 1048576
 CONSTANT Cap = 512
 CONSTANT N = 5
 CONSTANT BigMode = FALSE
+CONSTANT HistMode = FALSE
+CONSTANT MutMax = 4
 CONSTANT Stores <- MCStores
 CONSTANT Origins <- MCOrigins
 CONSTANT Amounts <- MCAmounts
